@@ -85,6 +85,21 @@ CHECKS["C08"] = (
     "5/C08",
 )
 
+CHECKS["C04"] = (
+    "Events.tla + THL.tla + OrderedOps.tla + UnorderedOps.tla + Binarize.tla + TraceDTL/TraceOrdered/TraceUnordered.tla",
+    "TLC: validity of every produced solution as an invariant of the three solver models (ResultInv, OptValid) on input sets biased to sloss = 0 and tie-heavy vectors; all seven algorithms x both policies run on TLC-listed and random inputs (polytomies included for the extended solvers) and every returned solution judged by TLA+ trace specs / TLC-computed valid sets (Valid, ValidOrd, ValidUn, total mapping, finite cost)",
+    "Model checking of the solver models' validity invariants plus trace validation of every solution returned by the real algorithms against the declarative validity predicates of the specification.",
+    "Trusts TLC and the validity predicates of Events.tla / OrderedOps.tla / UnorderedOps.tla, written from the property text; inputs <= 5-6 object leaves, 4 species leaves, 4 families; polytomies <= 4+4 leaves.",
+    "5/C04",
+)
+CHECKS["C05"] = (
+    "Events.tla + THL.tla + OrderedOps.tla + UnorderedOps.tla + TraceDTL/TraceOrdered/TraceUnordered.tla",
+    "TLC: the optimal set as a first-class value (explicit enumeration L0 = Bellman decode L1 = decoded and re-ranked products of retained tags in the THL state machine); thl, exh, base_spfs, ext_spfs, base_uspfs, superdtl x {ALL, ANY} run on TLC-listed and random inputs and judged against the TLC-computed optimal set (ALL = set, each once; ANY = one member; equal costs; empty iff no solution)",
+    "Model checking of the optimal-set computation in the solver models, bounded-exhaustive replay and trace validation of the real algorithms' result sets.",
+    "Trusts TLC and the optimal sets of Events.tla / OrderedOps.tla / UnorderedOps.tla (canonical optimal set for the unordered solvers, as the property states); costs inside the coherent region (outside: known finding F-COHERENCE, witness replayed).",
+    "5/C05",
+)
+
 NOT_YET = {}
 
 
